@@ -79,11 +79,32 @@ class OwnerC(OwnerA):          # instances are made by copy.copy() of another in
     pass
 
 
-OWNERS = [OwnerA, OwnerB, OwnerV, OwnerS, OwnerF, OwnerC]
+class OwnerP:                  # a base class and a subclass each declare a private signal of the same spelling:
+    __changed = Signal(E0)     # two different attributes (_OwnerP__changed, _OwnerQ__changed) of one instance
+
+
+class OwnerQ(OwnerP):
+    __changed = Signal(E1)
+
+
+PRIVATE = {0: "_OwnerP__changed", 1: "_OwnerQ__changed"}
+OWNERS = [OwnerA, OwnerB, OwnerV, OwnerS, OwnerF, OwnerC, OwnerQ]
+
+
+def attr_name(k, a):
+    return PRIVATE[a] if k == 6 else ATTRS[a]
+
+
+def topic_index(topic):
+    if topic in ATTRS:
+        return ATTRS.index(topic)
+    return next((a for a, n in PRIVATE.items() if n == topic), -1)
 KEEP = []                      # the originals of copied instances stay alive
 
 
 def owner_attrs(k):
+    if k == 6:
+        return [0, 1]
     return [a for a in range(3) if hasattr(OWNERS[k], ATTRS[a])]
 
 
@@ -97,7 +118,21 @@ def make_owner(k):
     return OwnerV(1) if k == 2 else OWNERS[k]()
 
 
-FILTERS = [None, lambda e: e.eid % 2 == 0, lambda e: type(e) in (E1, E3), lambda e: e.topic == "sig0"]
+class FalsyFilter:
+    """a callable filter object that is falsy (an empty container of accepted values, say): still a filter"""
+
+    def __init__(self, fn):
+        self.fn = fn
+
+    def __call__(self, e):
+        return self.fn(e)
+
+    def __len__(self):
+        return 0
+
+
+FILTERS = [None, FalsyFilter(lambda e: e.eid % 2 == 0), lambda e: type(e) in (E1, E3),
+           FalsyFilter(lambda e: topic_index(e.topic) == 0)]
 
 
 async def settle():
@@ -137,11 +172,12 @@ class Env:
         self.next_eid = 0
         self.dropped = set()
         self.dispatched = set()      # instances whose events may still be referenced by queues
+        self.ever_subscribed = set()  # channels some stream was ever subscribed to
 
     def obs_event(self, e):
         src = next((i for i, o in enumerate(self.insts) if o is not None and e.source is o), -1)
         return {"id": e.eid, "cls": ECLS.index(type(e)), "src": src,
-                "topic": ATTRS.index(e.topic) if e.topic in ATTRS else -1,
+                "topic": topic_index(e.topic),
                 "time_ok": isinstance(e.time, float)}
 
     def chan_index(self, sig):
@@ -201,8 +237,8 @@ class Env:
         k = op["op"]
         if k == "Access":
             o = self.insts[op["i"]]
-            sig = getattr(o, ATTRS[op["a"]])
-            again = getattr(o, ATTRS[op["a"]])
+            sig = getattr(o, attr_name(self.classes[op["i"]], op["a"]))
+            again = getattr(o, attr_name(self.classes[op["i"]], op["a"]))
             idx = self.chan_index(sig)
             if again is not sig:
                 return {"k": "Chan", "c": idx, "unstable": True}
@@ -292,9 +328,11 @@ class Env:
             return {"op": "Access", "i": i, "a": a}
         if k < 0.26 and len(self.cons) < 6:
             cs = r.sample(chans_live, min(len(chans_live), r.choice([1, 1, 2, 3])))
+            self.ever_subscribed.update(cs)
             return {"op": "Subscribe", "chans": cs, "f": r.choice([0, 0, 1, 2, 3]), "cap": r.choice([0, 1, 1, 2, 3])}
         if k < 0.32 and len(self.cons) < 6:
             cs = r.sample(chans_live, min(len(chans_live), r.choice([1, 1, 2])))
+            self.ever_subscribed.update(cs)
             return {"op": "Wait", "chans": cs, "f": r.choice([0, 1, 2, 3])}
         if k < 0.62:
             n = r.choice([1, 1, 1, 2, 3, 5]) if r.random() > 0.04 else r.choice([55, 70])
@@ -304,7 +342,8 @@ class Env:
                 a = self.chan_owner[ch][1]
                 ok_cls = [c for c in range(4) if issubclass(ECLS[c], ATTR_CLS[a])]
                 cls = r.choice(ok_cls) if r.random() > 0.08 else r.randrange(4)
-                self.dispatched.add(self.chan_owner[ch][0])
+                if ch in self.ever_subscribed:
+                    self.dispatched.add(self.chan_owner[ch][0])
                 l.append([ch, self.next_eid, cls])
                 self.next_eid += 1
             return {"op": "Burst", "l": l}
@@ -327,7 +366,8 @@ class Env:
         ch = r.choice(chans_live)
         a = self.chan_owner[ch][1]
         cls = r.choice([c for c in range(4) if issubclass(ECLS[c], ATTR_CLS[a])])
-        self.dispatched.add(self.chan_owner[ch][0])
+        if ch in self.ever_subscribed:
+            self.dispatched.add(self.chan_owner[ch][0])
         self.next_eid += 1
         return {"op": "Burst", "l": [[ch, self.next_eid - 1, cls]]}
 
@@ -335,7 +375,7 @@ class Env:
 async def run_case(case):
     steps = []
     rng = random.Random(case.get("seed", "0"))
-    classes = case.get("classes") or [rng.randrange(6) for _ in range(rng.choice([1, 2, 3, 4]))]
+    classes = case.get("classes") or [rng.randrange(7) for _ in range(rng.choice([1, 2, 3, 4]))]
     async with anyio.create_task_group() as tg:
         env = Env(tg, rng, classes)
         fixed = case.get("ops")
